@@ -1,6 +1,6 @@
 from ._muxprops import make, COMMON_RULE
 
-SPEC = make("C06", "Properties.C06", ['C06_drop_releases', 'C06_reset_releases', 'C06_bystanders_slots', 'C06_bystanders_streams', 'C06_new_stream_clean', 'C06_abort_eof', 'C06_stale_push_kills_new_stream'],
+SPEC = make("C06", "Properties.C06", ['C06_drop_releases', 'C06_reset_releases', 'C06_bystanders_slots', 'C06_bystanders_streams', 'C06_new_stream_clean', 'C06_abort_eof', 'C06_stale_push_kills_new_stream', 'C06_drop_projects', 'C06_reset_projects'],
             [("pair", "collide", 0.4), ("pair", "collide-drop", 0.3), ("pair", "single", 0.2), ("pair", "collide-reuse", 0.2)],
             COMMON_RULE + "For this property additionally: single-flow scripts (one established stream, then only reads / "
             "plain, vectored and empty writes / shutdowns and message-by-message deliveries, 40-120 labels) whose read and "
